@@ -4,30 +4,23 @@ package udp
 // C07 (c) — password masking by Process() of the SQL / SQL+param / DB-connection packs
 // at the versions of the Go and PHP families (see zzMask).
 
-import "github.com/whatap/golib/zzvf"
+func zzMaskTok() int { return 3 }
 
-func zzMaskTok() int {
-	if zzvf.Thorough() {
-		return 3
-	}
-	return 3
-}
-
-//vf: paths=60000 t.paths=400000
+//vf: paths=60000 t.paths=400000 t.deadline=40m
 func ZZ_C07_Mask_TxSql() {
 	zzMask("TxSql", zzMkTxSql,
 		func(u UdpPack, s string) { u.(*UdpTxSqlPack).Dbc = s },
 		func(u UdpPack) string { return u.(*UdpTxSqlPack).Dbc }, zzMaskTok())
 }
 
-//vf: paths=60000 t.paths=400000
+//vf: paths=60000 t.paths=400000 t.deadline=40m
 func ZZ_C07_Mask_TxSqlParam() {
 	zzMask("TxSqlParam", zzMkTxSqlParam,
 		func(u UdpPack, s string) { u.(*UdpTxSqlParamPack).Dbc = s },
 		func(u UdpPack) string { return u.(*UdpTxSqlParamPack).Dbc }, zzMaskTok())
 }
 
-//vf: paths=60000 t.paths=400000
+//vf: paths=60000 t.paths=400000 t.deadline=40m
 func ZZ_C07_Mask_TxDbc() {
 	zzMask("TxDbc", zzMkTxDbc,
 		func(u UdpPack, s string) { u.(*UdpTxDbcPack).Dbc = s },
